@@ -30,6 +30,7 @@ type LoopSpec struct {
 	Decreases  []*Clause
 	Assumes    []*Clause
 	Hints      []*Clause // lemmas proved on each back edge before the invariants (old() = state at the header)
+	ExitHints  []*Clause // lemmas proved only on the edges that leave the loop mid-iteration
 }
 
 type Contract struct {
@@ -110,7 +111,7 @@ type GhostDecl struct {
 	Args int
 }
 
-var clauseHead = regexp.MustCompile(`^(requires|ensures|assume|invariant|step|decreases|hint|rethint)\s*(\[[^\]]*\])?\s*([A-Za-z_][A-Za-z0-9_\-]*)\s*:\s*(.*)$`)
+var clauseHead = regexp.MustCompile(`^(requires|ensures|assume|invariant|step|decreases|hint|exithint|rethint)\s*(\[[^\]]*\])?\s*([A-Za-z_][A-Za-z0-9_\-]*)\s*:\s*(.*)$`)
 
 func newSpecSet() *SpecSet {
 	return &SpecSet{Contracts: map[string]*Contract{}, Ghosts: map[string]*GhostDecl{}, Preds: map[string]*Pred{}}
@@ -497,6 +498,8 @@ func (ss *SpecSet) parseFile(path string, trusted bool, pkgName string) {
 					ls.Decreases = append(ls.Decreases, c)
 				case "hint":
 					ls.Hints = append(ls.Hints, c)
+				case "exithint":
+					ls.ExitHints = append(ls.ExitHints, c)
 				}
 			}
 			lastClause = c
